@@ -130,6 +130,14 @@ class Tmatrix(ScatteringTheory):
         thet = angles[:, 0]
         phi0 = 0
         phi = angles[:, 1]
+        # the Fortran code stops the process for scattering directions
+        # outside 0 <= theta <= 180, 0 <= phi <= 360 (possible with
+        # spherical detector points): map them to the same direction
+        # inside that range
+        thet = thet % 360
+        flip = thet > 180
+        thet = np.where(flip, 360 - thet, thet)
+        phi = np.where(flip, phi + 180, phi) % 360
         nang = angles.shape[0]
 
         args = [axi, rat, lam, mrr, mri, eps, NP, ndgs, alpha, beta,
